@@ -38,6 +38,12 @@ pub fn generate_raw_response_type_inner<TCompilationProfile: CompilationProfile>
     indentation_level: u8,
 ) {
     let indent = &"  ".repeat(indentation_level as usize).to_string();
+    if selection_map.is_empty() {
+        // GraphQL does not allow empty selection sets, so the query text selects
+        // __typename in their place. Describe the same response here.
+        raw_response_type.push_str(&format!("{indent}__typename: string,\n"));
+        return;
+    }
     let mut inline_fragments = BTreeMap::new();
     let mut rest = BTreeMap::new();
 
